@@ -1904,11 +1904,12 @@ Section Job.
   Lemma start_spec rec fuel e ex t w w' evs rv ab :
     rec_spec rec -> e_runid e = R -> JINV w ex -> PROJ w -> tgt_ok w ex t ->
     start rec fuel e MIfChange t w = Ret (w', evs, rv, ab) ->
-    jstep ex ex w w' /\ (rv = 0%Z -> exists f, find_row (rows (dbs w')) t 1 = Some f /\ ok w' ex f).
+    jstep ex ex w w' /\
+    (rv = 0%Z -> find_row (rows (dbs w')) t 1 = Some (snd (from_name (dbs w) t)) /\ ok w' ex (snd (from_name (dbs w) t))).
   Proof.
     intros Hrec HR Hj Hp Ht H. pose proof Ht as (Tw & Tr & Tk).
     unfold start in H. rewrite HR in H.
-    destruct (from_name (dbs w) t) as [d0 f] eqn:Efn.
+    destruct (from_name (dbs w) t) as [d0 f] eqn:Efn. cbn [snd].
     destruct (from_name_JINV w ex t d0 f Hj Tr Efn) as (E0 & J0 & M0 & Vf & Nf & D0 & F0 & _).
     set (w0 := set_db w d0) in *.
     assert (Js0 : jstep ex ex w w0) by (exact (extends_jstep ex w w0 Hj E0 D0 J0 M0)).
@@ -1931,7 +1932,7 @@ Section Job.
     assert (Hv : (match v with VNeed [x] => if Nat.eqb x f then VDirty else v | _ => v end) = v).
     { destruct v as [| |l|]; try reflexivity. exfalso. exact (Hnn l eq_refl). }
     rewrite Hv in H. destruct v as [| |l|].
-    - injection H as <- _ <- _. split; [exact Js01|]. intros _. exists f. split; [exact F1|apply Hcl; reflexivity].
+    - injection H as <- _ <- _. split; [exact Js01|]. intros _. split; [exact F1|apply Hcl; reflexivity].
     - (* the job *)
       assert (Hnok : ~ ok w1 ex f) by (apply Hncl; discriminate).
       destruct (start_self rec e t f (fs_get (fs w0) t) w1) as [[[[w2 ev2] rv2] ab2]|] eqn:Ess; [|discriminate].
@@ -1951,10 +1952,66 @@ Section Job.
       pose proof (noov_ovr_now w1 f Hnoov Ha1) as Ho. rewrite Nf1 in Ho. rewrite Ho in Ess.
       destruct (ss_rest_spec rec e ex t f (fs_get (fs w0) t) w1 w2 ev2 rv2 ab2 Hrec HR Jj1
                              (PROJ_wsame w0 w1 W1 Hp0) (tgt_ok_jstep ex ex w0 w1 t J0 Js1 Ht0) Nf1 Vf1 Hf F1 Hnok Hum Ess) as (Js2 & Hok2).
-      split; [eapply jstep_trans; eauto|]. intro E0'. exists f. split; [|apply Hok2; exact E0'].
+      split; [eapply jstep_trans; eauto|]. intro E0'. split; [|apply Hok2; exact E0'].
       destruct Js2 as (Jn2 & _). eapply NAMES_find; eauto.
     - exfalso. exact (Hnn l eq_refl).
     - injection H as <- _ <- _. split; [exact Js01|intro X; discriminate X].
   Qed.
 
+
+  (* builder::run at -j1 *)
+  Lemma run_loop_spec rec fuel e ex :
+    rec_spec rec -> e_runid e = R ->
+    forall ts seen w evs errored w' evs' rc,
+      JINV w ex -> PROJ w -> (forall t, In t ts -> tgt_ok w ex t) ->
+      run_loop (start rec fuel e MIfChange) e ts seen w evs errored = Ret (w', evs', rc) ->
+      jstep ex ex w w' /\
+      (rc = 0%Z -> (forall g, In g seen -> ok w ex g) ->
+         (forall g, In g seen -> ok w' ex g) /\
+         forall t, In t ts -> exists g, find_row (rows (dbs w')) t 1 = Some g /\ ok w' ex g).
+  Proof.
+    intros Hrec HR. induction ts as [|t ts IH]; intros seen w evs errored w' evs' rc Hj Hp Hts H; cbn [run_loop] in H.
+    - injection H as <- _ <-. split; [apply jstep_refl; exact Hj|]. intros _ Hs. split; [exact Hs|intros t []].
+    - destruct (errored && negb (e_keep_going e)) eqn:Estop.
+      { injection H as <- _ <-. split; [apply jstep_refl; exact Hj|intro X; discriminate X]. }
+      destruct (Hts t (or_introl eq_refl)) as (Tw & Tr & Tk).
+      destruct (from_name (dbs w) t) as [d0 f] eqn:Efn.
+      destruct (from_name_JINV w ex t d0 f Hj Tr Efn) as (E0 & J0 & M0 & Vf & Nf & D0 & F0 & _).
+      set (w0 := set_db w d0) in *.
+      assert (Js0 : jstep ex ex w w0) by (exact (extends_jstep ex w w0 Hj E0 D0 J0 M0)).
+      assert (Hts0 : forall t', In t' ts -> tgt_ok w0 ex t').
+      { intros t' Ht'. apply (tgt_ok_jstep ex ex w w0 t' Hj Js0). apply Hts. now right. }
+      destruct (existsb (Nat.eqb f) seen) eqn:Eseen.
+      { (* another spelling of a target already handled *)
+        destruct (IH seen w0 evs errored w' evs' rc J0 (PROJ_wsame w w0 (proj1 (proj2 Js0)) Hp) Hts0 H) as (Js & Hres).
+        split; [eapply jstep_trans; eauto|]. intros Hrc Hs.
+        destruct (Hres Hrc (fun g Hg => M0 g (Hs g Hg))) as (Hs' & Hall). split; [exact Hs'|].
+        intros t' [<-|Ht']; [|apply Hall; exact Ht'].
+        exists f. split.
+        - destruct Js as (Jn & _). eapply NAMES_find; eauto.
+        - apply Hs'. apply existsb_exists in Eseen as (g & Hg & Eg). apply Nat.eqb_eq in Eg. subst g. exact Hg. }
+      destruct (negb (e_unlocked e) && existsb (Nat.eqb f) (e_cycles e)).
+      { injection H as <- _ <-. split; [exact Js0|intro X; discriminate X]. }
+      destruct (start rec fuel e MIfChange t w) as [[[[w1 ev1] rv1] ab1]|] eqn:Est; [|discriminate].
+      destruct (start_spec rec fuel e ex t w w1 ev1 rv1 ab1 Hrec HR Hj Hp (Hts t (or_introl eq_refl)) Est) as (Js1 & Hok1).
+      destruct ab1.
+      { injection H as <- _ <-. split; [exact Js1|]. intro X. pose proof (start_abort_is_208 _ _ _ _ _ _ _ _ _ Est). lia. }
+      pose proof Js1 as (Jn1 & W1 & Jj1 & Jm1 & _).
+      assert (Hts1 : forall t', In t' ts -> tgt_ok w1 ex t').
+      { intros t' Ht'. apply (tgt_ok_jstep ex ex w w1 t' Hj Js1). apply Hts. now right. }
+      destruct (IH (f :: seen) w1 (evs ++ ev1) (errored || negb (Z.eqb rv1 0)) w' evs' rc Jj1 (PROJ_wsame w w1 W1 Hp) Hts1 H) as (Js & Hres).
+      split; [eapply jstep_trans; eauto|]. intros Hrc Hs.
+      (* the command ended with 0: no job failed *)
+      assert (Herr : errored || negb (Z.eqb rv1 0) = false).
+      { destruct (errored || negb (Z.eqb rv1 0)) eqn:E; [|reflexivity]. exfalso.
+        exact (run_loop_errored_nonzero _ _ _ _ _ _ _ _ _ _ _ H Hrc). }
+      apply orb_false_iff in Herr as [_ Hrv]. apply negb_false_iff, Z.eqb_eq in Hrv.
+      rewrite Efn in Hok1. cbn [snd] in Hok1. destruct (Hok1 Hrv) as (Ff1 & Hokf1).
+      destruct (Hres Hrc) as (Hs' & Hall).
+      { intros g [<-|Hg]; [exact Hokf1|]. apply Jm1. apply Hs. exact Hg. }
+      split; [intros g Hg; apply Hs'; now right|].
+      intros t' [<-|Ht']; [|apply Hall; exact Ht'].
+      exists f. split; [|apply Hs'; now left].
+      destruct Js as (Jn & _). eapply NAMES_find; eauto.
+  Qed.
 End Job.
